@@ -112,6 +112,8 @@ def run(ctx):
         res.ob(ok, sig=("size", tuple(members)))
         if not ok:
             res.violation("EVENTS", FN, f"members={len(members)}", f"universe {members} with a link c->a: node ids {[e[1] for e in nodes]} labelled {labs}, edges {edges}; expected ids {list(range(len(members)))} labelled {members}, edges {want_edges}")
+    from rules import structural
+    structural.is_on_values(ctx, ["edgegraph/output/pyvis.py"])
     # pyvis_render_customizable forwards to make_pyvis_net (FWD)
     fwd(ctx, h, rec, res)
     from sa import eff
